@@ -868,6 +868,7 @@ def gen_voxel(cls, gseed):
 SCENE_CLASSES = (
     "flat_same", "flat_renamed", "instanced", "nested", "nested_similarity", "nested_mirror",
     "nested_affine", "internal_geom", "internal_geom_same", "random", "with_cloud", "with_path",
+    "with_empty_geometry",
 )
 
 
@@ -980,6 +981,17 @@ def gen_scene(cls, gseed):
         nodes.append((names[0], None, mat(), names[0]))
         nodes.append(("cloudnode", None, mat(), "cloud"))
         nodes.append(("cloud2", "cloudnode", mat(), "cloud"))
+    elif cls == "with_empty_geometry":
+        # a geometry that exports nothing (vertices but no faces) AFTER one that does and
+        # before another one: nothing of it may come back, and nothing else may take its node
+        V = rng.uniform(-1, 1, size=(5, 3))
+        third = geoms.pop(names[1])
+        geoms["hollow"] = MeshSpec("points_only", "none", int(rng.integers(2**31)), V, np.zeros((0, 3), dtype=np.int64))
+        geoms[names[1]] = third
+        nodes.append((names[0], None, mat(), names[0]))
+        nodes.append(("hollownode", None, gen_matrix(rng, "translation"), "hollow"))
+        nodes.append((names[1], None, mat(), names[1]))
+        nodes.append(("second_hollow", names[0], gen_matrix(rng, "translation"), "hollow"))
     elif cls == "with_path":
         pcls = ["lines3d_one", "lines3d_multi"][int(rng.integers(2))]
         geoms["path"] = gen_path(pcls, int(rng.integers(2**31)))
